@@ -4,7 +4,8 @@
    bytes; subst = placeholder replacement; entry / help_text = what the property demands of the description;
    visible_opts = options with level(o) <= L in groups with level(g) <= L, sub groups first, then the main group;
    cmd_safe = a default that survives the command-string syntax.                                                    *)
-Require Import V.Lib.Base V.Gen.Consts_C19 V.C19.Model V.C19.Spec V.C19.Proofs V.C19.Proofs2.
+Require Import V.Lib.Base V.Gen.Consts_C19 V.C19.Model V.C19.Spec V.C19.Proofs V.C19.Proofs2 V.C19.Proofs3.
+Require Import Permutation.
 Local Open Scope Z_scope.
 
 (* no sprintf of DefaultFormat::format(buf, option, maxW) writes outside the vector of the size the code computes,
@@ -73,6 +74,61 @@ Theorem c19_defaults_parse_refuted :
 Proof. vm_compute. repeat split; reflexivity. Qed.
 Print Assumptions c19_defaults_parse_refuted.
 
+(* ---------------- contexts put together by OptionContext::add ----------------
+   build_ctx ps = the groups_ vector after handing the OptionGroups ps to OptionContext::add one after the other (add_group mirrors add:
+   first group with the same caption, options appended, level = std::min of the two levels; otherwise a new group at the back);
+   registered ps = the options_ vector.  cap_opts cap ps = the options of all groups of ps with caption cap, in the order of the adds.  *)
+
+(* what add leaves behind: one group per caption in the order in which the captions were seen first (so the main group is the caption
+   of the first add), holding all options given for the caption, under the MINIMUM of the levels given for the caption *)
+Theorem c19_merge : forall ps : list group,
+  let ctx := build_ctx ps in
+  map g_caption ctx = first_occ (map g_caption ps) /\ NoDup (map g_caption ctx) /\
+  hd_error (map g_caption ctx) = hd_error (map g_caption ps) /\
+  (forall cap, In cap (map g_caption ctx) <-> In cap (map g_caption ps)) /\
+  forall G, In G ctx ->
+    g_opts G = cap_opts (g_caption G) ps /\
+    (forall L, g_level G <= L <-> exists p, In p ps /\ g_caption p = g_caption G /\ g_level p <= L).
+Proof. exact merge_full. Qed.
+Print Assumptions c19_merge.
+
+(* after adding groups in any order: an option is among the visible options at active level L (those c19_visible puts into the help text
+   and c19_defaults_mention into the default command line) iff its own level <= L and SOME group of its caption was given a level <= L *)
+Theorem c19_merge_visible : forall (ps : list group) (dl : Z) (o : vopt),
+  In o (visible_opts dl (build_ctx ps)) <->
+  exists p, In p ps /\ In o (g_opts p) /\ v_level o <= dl /\ exists q, In q ps /\ g_caption q = g_caption p /\ g_level q <= dl.
+Proof. exact merged_visible. Qed.
+Print Assumptions c19_merge_visible.
+
+(* ... whatever the order of the adds *)
+Theorem c19_merge_any_order : forall (ps ps' : list group) (dl : Z) (o : vopt), Permutation ps ps' ->
+  (In o (visible_opts dl (build_ctx ps)) <-> In o (visible_opts dl (build_ctx ps'))).
+Proof. exact merged_any_order. Qed.
+Print Assumptions c19_merge_any_order.
+
+(* exactly once and in which order: the visible options are, for every caption in the order of its first add (the first caption last)
+   that some add showed at the level, the caption's options in the order of the adds, filtered by their own level;
+   and the help text is the caption lines and entries of precisely these *)
+Theorem c19_merge_listed : forall (ps : list group) (dl : Z),
+  visible_opts dl (build_ctx ps) =
+    flat_map (fun cap => filter (opt_visible dl) (cap_opts cap ps)) (filter (fun cap => cap_shown dl cap ps) (rot (first_occ (map g_caption ps)))) /\
+  description dl (build_ctx ps) =
+    (flat_map (fun cap => cap_frame cap ++ flat_map (entry (ctx_max_w dl (build_ctx ps))) (filter (opt_visible dl) (cap_opts cap ps)))
+              (filter (fun cap => cap_shown dl cap ps) (rot (first_occ (map g_caption ps)))), false).
+Proof. intros ps dl. split; [apply merged_visible_list | apply merged_description]. Qed.
+Print Assumptions c19_merge_listed.
+
+(* the default command line of such a context read back against its options_ vector (registration order) *)
+Theorem c19_merge_defaults_parse : forall (dl n : Z) (ps : list group),
+  NoDup (map fst (keys_from 0 (registered ps))) ->
+  forallb cmd_safe (with_default (visible_opts dl (build_ctx ps))) = true ->
+  exists l : list (nat * (vopt * str)),
+    map snd l = with_default (visible_opts dl (build_ctx ps)) /\
+    Forall (fun x => nth_error (registered ps) (fst x) = Some (fst (snd x))) l /\
+    parse_cmd_os (registered ps) (defaults dl n (build_ctx ps)) = POk (map (fun x => (fst x, snd (snd x))) l).
+Proof. exact merged_defaults_parse. Qed.
+Print Assumptions c19_merge_defaults_parse.
+
 (* ---------------- non-vacuity ---------------- *)
 (* alias + negatable + implicit + argument; long negatable flag; empty argument name on a non-implicit option *)
 Definition ex_a : vopt := mkO [97] 97 [60; 110; 62] true [50] true (Some [49]) 0 [65; 32; 37; 65; 32; 37; 68; 32; 37; 73; 32; 37; 37; 32; 37; 120; 32; 37].
@@ -98,4 +154,27 @@ Proof. vm_compute. repeat constructor; simpl; intuition discriminate. Qed.
 Example c19_ex_safe : forallb cmd_safe (with_default (visible_opts 4 ex_ctx)) = true.
 Proof. vm_compute. reflexivity. Qed.
 Example c19_ex_parse : parse_cmd ex_ctx (defaults 4 0 ex_ctx) = POk [(3%nat, [120; 61; 49]); (0%nat, [49])].
+Proof. vm_compute. reflexivity. Qed.
+
+(* adds with equal captions: "Search"@2 {s1}, ""@0 {m1}, "Search"@0 {s2; s3@1}, ""@3 {m2}, "Other"@1 {x}  (and the reverse order):
+   Search and the caption-less main group are shown from level 0 on, with ALL their options of level <= L; Other from level 1 on *)
+Definition ex_o (name : str) (level : Z) : vopt := mkO name 0 ARG_DEFAULT false IMPLICIT_DEFAULT false (Some [49]) level [].
+Definition ex_ps : list group :=
+  [mkG [83] 2 [ex_o [115; 49] 0]; mkG [] 0 [ex_o [109; 49] 0]; mkG [83] 0 [ex_o [115; 50] 0; ex_o [115; 51] 1];
+   mkG [] 3 [ex_o [109; 50] 0]; mkG [79] 1 [ex_o [120] 0]].
+Example c19_ex_merge :
+  map (fun g => (g_caption g, g_level g, map v_name (g_opts g))) (build_ctx ex_ps) =
+    [([83], 0, [[115; 49]; [115; 50]; [115; 51]]); ([], 0, [[109; 49]; [109; 50]]); ([79], 1, [[120]])] /\
+  map (fun g => (g_caption g, g_level g, map v_name (g_opts g))) (build_ctx (rev ex_ps)) =
+    [([79], 1, [[120]]); ([], 0, [[109; 50]; [109; 49]]); ([83], 0, [[115; 50]; [115; 51]; [115; 49]])] /\
+  map v_name (visible_opts 0 (build_ctx ex_ps)) = [[109; 49]; [109; 50]; [115; 49]; [115; 50]] /\
+  map v_name (visible_opts 1 (build_ctx ex_ps)) = [[109; 49]; [109; 50]; [120]; [115; 49]; [115; 50]; [115; 51]] /\
+  map v_name (registered ex_ps) = [[115; 49]; [109; 49]; [115; 50]; [115; 51]; [109; 50]; [120]].
+Proof. vm_compute. repeat split; reflexivity. Qed.
+Example c19_ex_merge_keys_nodup : NoDup (map fst (keys_from 0 (registered ex_ps))).
+Proof. vm_compute. repeat constructor; simpl; intuition discriminate. Qed.
+Example c19_ex_merge_safe : forallb cmd_safe (with_default (visible_opts 0 (build_ctx ex_ps))) = true.
+Proof. vm_compute. reflexivity. Qed.
+Example c19_ex_merge_parse :
+  parse_cmd_os (registered ex_ps) (defaults 0 0 (build_ctx ex_ps)) = POk [(1%nat, [49]); (4%nat, [49]); (0%nat, [49]); (2%nat, [49])].
 Proof. vm_compute. reflexivity. Qed.
